@@ -1,3 +1,5 @@
+//go:build !no_auth
+
 package main
 
 import (
